@@ -192,8 +192,7 @@ pub fn build_db(sc: &Scenario) -> MemDb {
         let a = w.addr(&pl.at);
         let bc = bytecode_of(lib_runtime(pl.runtime));
         let h = bc.hash_slow();
-        // an empty runtime models a legacy code-less account: nonce 0, so a CREATE2 onto it does not collide
-        let info = AccountInfo { balance: pl.balance.to_u256(), nonce: if h == KECCAK_EMPTY { 0 } else { 1 }, code_hash: h, code: None, ..Default::default() };
+        let info = AccountInfo { balance: pl.balance.to_u256(), nonce: 1, code_hash: h, code: None, ..Default::default() };
         if h != KECCAK_EMPTY {
             db.codes.insert(h, bc);
         }
